@@ -122,6 +122,30 @@ func l1Corpus(c *Ctx, family string, sampleEvery int) []reqCase {
 		lit := 0
 		v2, _ := corpus.RoutingFile(1, "main", family+".ver", "lab/gen/"+family+"ver", family+"ver", &lit, false)
 		out = append(out, reqCase{ID: "versions/v0-v1", Files: []*spec.File{corpus.OlderVersion(v2), v2}})
+		// two versions of a service that declares service- and method-level headers: the same service, RPC
+		// and header names in two Go packages, with other requiredness and types in the older one
+		hv := corpus.HeaderCaseVariantsFile(family+".hver", family+"hver")
+		ho := corpus.OlderVersion(hv)
+		for _, sv := range ho.Services {
+			for i := range sv.Headers {
+				sv.Headers[i].Required = !sv.Headers[i].Required
+			}
+			for _, m := range sv.Methods {
+				for i := range m.Headers {
+					m.Headers[i].Required = !m.Headers[i].Required
+					if m.Headers[i].Type == "string" {
+						m.Headers[i].Type = "integer"
+					}
+				}
+			}
+		}
+		out = append(out, reqCase{ID: "versions/v0-v1-with-headers", Files: []*spec.File{ho, hv}})
+	}
+	// 3, 5 and 7 services in one invocation (one file / three files): a generator that spreads services over
+	// workers sized by GOMAXPROCS must cover all of them for every ratio of the two numbers
+	for _, n := range []int{3, 5, 7} {
+		out = append(out, reqCase{ID: fmt.Sprintf("services/%d-in-one-file", n), Files: corpus.ManyServices(fmt.Sprintf("%s.ms%d", family, n), fmt.Sprintf("%sms%d", family, n), n, 1)})
+		out = append(out, reqCase{ID: fmt.Sprintf("services/%d-in-three-files", n), Files: corpus.ManyServices(fmt.Sprintf("%s.mt%d", family, n), fmt.Sprintf("%smt%d", family, n), n, 3)})
 	}
 	out = append(out, reqCase{ID: "twins/packages", Files: corpus.TwinPackages(family+".tw", family+"tw")})
 	for _, es := range corpus.EnumShapes(family+".en", family+"en") {
@@ -308,7 +332,7 @@ func c15(c *Ctx) {
 			}
 			// repeats with different processes / GOMAXPROCS
 			for r := 0; r < repeats; r++ {
-				gmp := []string{"1", "2", "16"}[r%3]
+				gmp := []string{"1", "2", "3", "16", "4", "5", "7", "2"}[r%8]
 				other := c.TB.Run(p, req, plugin.RunOpt{Env: []string{"GOMAXPROCS=" + gmp}})
 				cmp(caseBase+"/repeat", other, base.Names(), "repeat")
 			}
